@@ -166,22 +166,36 @@ def ro_workload(ver, maxbuf):
     return {"ver": ver, "maxbuf": maxbuf, "mode": "ro_faults", "streams": streams, "ops": ops}
 
 
-def ro_open_workload(ver, maxbuf):
+def ro_open_workload(ver, maxbuf, twice=True):
     """Faults while a file of SEVERAL FAT sectors is opened (version 3: more than 64 KiB), then reads at both ends of the long
     stream and of a short one whose mini sectors lie behind it: a table that was assembled wrongly because a failed read was
     skipped shows as wrong bytes, not as an error."""
     f = gens.Fill()
     rng = random.Random(11)
-    streams = [{"name": "a", "runs": f.runs(rng, 70000)}, {"name": "bar", "runs": f.runs(rng, 3000)}, {"name": "c", "runs": f.runs(rng, 700)}]
-    ops = [{"op": "open"}, {"op": "open"}, {"op": "walk"}]
-    for name, seeks in (("a", [0, 30000, 66000, 69000]), ("bar", [0, 2000]), ("c", [0])):
+    # (the long stream changes its fill byte every 500 bytes: a chain that is followed wrongly by one sector must not deliver
+    # the same bytes)
+    streams = [{"name": "a", "runs": [[f.next(), 500] for _ in range(140)]}, {"name": "bar", "runs": [[f.next(), 60] for _ in range(50)]},
+               {"name": "c", "runs": f.runs(rng, 700)}]
+    if not twice:
+        # second shape: no chain crosses the boundary between the first FAT sector's range and the second's (sectors 127 / 128):
+        # eleven 8-sector streams and one of 35 sectors fill sectors 2..127 exactly (with the three further directory sectors),
+        # then the second FAT sector, then a regular stream and two short ones that live entirely in the second range
+        # (sixteen directory entries in all: the four directory sectors exist before the boundary is reached)
+        names = ["k1", "k2", "k3", "k4", "k5", "k6", "f1", "f2", "f3", "f4", "f5", "f6"]
+        streams = [{"name": n, "runs": [[f.next(), 4096]]} for n in names[:11]] + [{"name": names[11], "runs": [[f.next(), 17920]]}]
+        streams += [{"name": "a", "runs": [[f.next(), 500] for _ in range(20)]}, {"name": "bar", "runs": [[f.next(), 60] for _ in range(50)]},
+                    {"name": "c", "runs": f.runs(rng, 700)}]
+    # twice: the open is retried (an open that failed is followed by one that works); once: whatever the faulted open returned
+    # is what the reads go through - an open that swallowed the failure and answered Ok must still have loaded the right tables
+    ops = ([{"op": "open"}, {"op": "open"}] if twice else [{"op": "open"}]) + [{"op": "walk"}]
+    for name, seeks in (("a", [0, 30000, 66000, 69000] if twice else [0, 3000, 7000]), ("bar", [0, 2000]), ("c", [0])):
         ops += [{"op": "open_stream", "name": name}, {"op": "open_stream", "name": name}]
         for d in seeks:
             ops += [{"op": "seek", "whence": "start", "d": d, "sym": ""}, {"op": "read", "n": 900}, {"op": "position"},
                     {"op": "read", "n": 900}, {"op": "position"}]
         ops += [{"op": "seek", "whence": "start", "d": 0, "sym": ""}, {"op": "read_to_end"}, {"op": "close"}]
     # only the positions inside the two `open` calls are swept
-    return {"ver": ver, "maxbuf": maxbuf, "mode": "ro_faults", "streams": streams, "ops": ops, "fault_ops": [0, 1]}
+    return {"ver": ver, "maxbuf": maxbuf, "mode": "ro_faults", "streams": streams, "ops": ops, "fault_ops": [0, 1] if twice else [0]}
 
 
 def rw_remove_workload(ver, maxbuf):
